@@ -154,7 +154,9 @@ class Ctx:
             cmd += extra
         cmd.append(module)
         e = dict(os.environ)
-        jopts = "-Xss512m -Xmx%s" % heap
+        jtmp = os.path.join(self.scr, "jtmp")
+        os.makedirs(jtmp, exist_ok=True)
+        jopts = "-Xss512m -Xmx%s -Djava.io.tmpdir=%s" % (heap, jtmp)      # SANY's unpacked standard modules go with the scratch directory
         if dfs:
             jopts += " -Dtlc2.tool.queue.IStateQueue=StateDeque"
         e["JAVA_TOOL_OPTIONS"] = jopts
@@ -336,13 +338,16 @@ def binding_selftest(ctx, module, cfg, trace_path, corruptors, max_cases=400, al
         cases.append(cur)
     out = {}
     for name, fn in corruptors:
-        done = False
+        done, tries = False, 0
         for evs in cases:
             alt = fn(json.loads(json.dumps(evs)))
             if alt is None:
                 continue
+            tries += 1
+            if tries > 40:
+                break
             # the unaltered case must be accepted, the altered one rejected
-            res = []
+            res, diags = [], []
             for tag, body in (("orig", evs), ("alt", alt)):
                 fp = os.path.join(ctx.scr, "selftest_%s_%s.ndjson" % (name, tag))
                 with open(fp, "w") as g:
@@ -352,9 +357,11 @@ def binding_selftest(ctx, module, cfg, trace_path, corruptors, max_cases=400, al
                         g.write(json.dumps(e) + "\n")
                 v, _ = ctx.validate(module, cfg, fp, parts=1)
                 res.append(sum(max(1, len(b.get("items", []))) for b in v["bad"]))
+                diags.append({it.get("diag") for b in v["bad"] for it in b.get("items", [])})
             if res[0] != 0 and not allow_rejected:
                 continue      # this case is itself rejected (a known finding): take another one
-            if res[1] <= res[0]:
+            # objection = more rejections than the unaltered case, or a diagnosis the unaltered case does not have
+            if res[1] <= res[0] and not (diags[1] - diags[0]):
                 raise Infra("binding self-test %s: %s does not object to a trace in which a recorded field was altered" % (name, module))
             out[name] = "rejected"
             done = True
